@@ -58,6 +58,7 @@ func (p *Program) installIntrinsics() {
 	in["(*sync.WaitGroup).Done"] = func(fr *frame, a []Value) Value {
 		m := fr.m
 		c := m.wgCounter(a[0].(*Value))
+		m.hbRelease(c)
 		*c--
 		if *c < 0 {
 			panic(targetPanic{v: Iface{t: m.P.runtimeErrorString, v: MkStr("sync: negative WaitGroup counter")}, pos: "sync"})
@@ -73,6 +74,7 @@ func (p *Program) installIntrinsics() {
 		c := m.wgCounter(a[0].(*Value))
 		m.schedPoint()
 		m.waitUntil(func() bool { return *c == 0 }, "WaitGroup.Wait")
+		m.hbAcquire(c)
 		return nil
 	}
 
@@ -86,6 +88,8 @@ func (p *Program) installIntrinsics() {
 			if p == nil {
 				m.runtimePanic(fr, token.NoPos, "invalid memory address or nil pointer dereference")
 			}
+			m.hbAcquire(p)
+			m.hbRelease(p)
 			nv := Bin(OpAdd, (*p).(*Term), a[1].(*Term))
 			*p = nv
 			return nv
@@ -96,6 +100,7 @@ func (p *Program) installIntrinsics() {
 			if p == nil {
 				fr.m.runtimePanic(fr, token.NoPos, "invalid memory address or nil pointer dereference")
 			}
+			fr.m.hbAcquire(p)
 			return *p
 		}
 		in["sync/atomic.Store"+ty] = func(fr *frame, a []Value) Value {
@@ -104,6 +109,7 @@ func (p *Program) installIntrinsics() {
 			if p == nil {
 				fr.m.runtimePanic(fr, token.NoPos, "invalid memory address or nil pointer dereference")
 			}
+			fr.m.hbRelease(p)
 			*p = a[1]
 			return nil
 		}
@@ -111,6 +117,8 @@ func (p *Program) installIntrinsics() {
 			m := fr.m
 			m.schedPoint()
 			p := a[0].(*Value)
+			m.hbAcquire(p)
+			m.hbRelease(p)
 			if m.branch(Cmp(OpEq, (*p).(*Term), a[1].(*Term))) {
 				*p = a[2]
 				return trueT
@@ -525,7 +533,7 @@ func (p *Program) installVerif() {
 			return nil
 		}
 		if cs := m.lockset.candidates(); len(cs) > 0 {
-			m.failHere("RACE-CANDIDATE", nameOf(a[0])+": "+strings.Join(cs, "; "))
+			m.failHere("RACE-CANDIDATE", nameOf(a[0])+": data race (no happens-before order): "+strings.Join(cs, "; "))
 		}
 		return nil
 	}
